@@ -1,7 +1,7 @@
 (* Agreement of src/pixel_encodings.rs (ColorFormat numbering and its two tables, the RGB5A3 channel
    constants), regenerated from the source on every run, with Model/ColorFormat.v and Model/Pixel.v.
    The model numbers the ColorFormat variants by their position in the enum declaration. *)
-From Coq Require Import List NArith ZArith Bool String.
+From Coq Require Import String List NArith ZArith Bool.
 From Mila Require Import Generated.SourceTables.
 From Mila Require Import Proofs.SrcAgreeLib Lib.Bytes Lib.Machine Model.Pixel Model.ColorFormat.
 Import ListNotations.
